@@ -10,7 +10,7 @@ open OG.Gen.C01
 
 theorem src_writeBinary_expected : src_writeBinary = "{ compBuf := walCompBufPool.Get() maxEncodeLen := snappy.MaxEncodedLen(len(walRecord.binary)) compBuf = bufferpool.Resize(compBuf, WalRecordHeadSize+maxEncodeLen) defer func() { if len(compBuf) <= WalCompMaxBufSize { walCompBufPool.Put(compBuf) } }() compData := snappy.Encode(compBuf[WalRecordHeadSize:], walRecord.binary) compBuf[0] = byte(walRecord.writeWalType) binary.BigEndian.PutUint32(compBuf[1:WalRecordHeadSize], uint32(len(compData))) compBuf = compBuf[:WalRecordHeadSize+len(compData)] l.mu.RLock() err := l.logWriter[(atomic.AddUint64(&l.writeReq, 1)-1)%uint64(l.partitionNum)].Write(compBuf) l.mu.RUnlock() if err != nil { panic(fmt.Errorf(\"writing WAL entry failed: %v\", err)) } return nil }" := by rfl
 
-theorem src_Switch_expected : src_Switch = "{ if !l.walEnabled { return nil, nil } errs := errno.NewErrs() errs.Init(l.partitionNum, nil) l.mu.Lock() defer l.mu.Unlock() walFiles := newWalFiles(l.maxRowTime, l.lock, l.logPath) l.maxRowTime = math.MinInt64 atomic.StoreUint64(&l.writeReq, 0) for i := 0; i < l.partitionNum; i++ { go func(lw *LogWriter) { files, err := lw.Switch() errs.Dispatch(err) walFiles.Add(files...) }(&l.logWriter[i]) } err := errs.Err() return walFiles, err }" := by rfl
+theorem src_Switch_expected : src_Switch = "{ if !l.walEnabled { return nil, nil } errs := errno.NewErrs() errs.Init(l.partitionNum, nil) l.mu.Lock() defer l.mu.Unlock() walFiles := newWalFiles(l.maxRowTime, l.lock, l.logPath) l.maxRowTime = math.MinInt64 atomic.StoreUint64(&l.writeReq, 0) for i := 0; i < l.partitionNum; i++ { go func(lw *LogWriter) { files, err := lw.Switch() walFiles.Add(files...) errs.Dispatch(err) }(&l.logWriter[i]) } err := errs.Err() return walFiles, err }" := by rfl
 
 theorem src_restoreLog_expected : src_restoreLog = "{ logPath := writer.logPath dirs, err := fileops.ReadDir(logPath) if err != nil { panic(err) } sort.Slice(dirs, func(i, j int) bool { iLen := len(dirs[i].Name()) jLen := len(dirs[j].Name()) if iLen == jLen { return dirs[i].Name() > dirs[j].Name() } return iLen > jLen }) if len(dirs) == 0 { return } maxSeq, err := strconv.Atoi(dirs[0].Name()[:len(dirs[0].Name())-len(WALFileSuffixes)-1]) if err != nil { l.log.Error(\"parse wal file failed\", zap.String(\"path\", logPath), zap.Error(err)) return } writer.fileSeq = maxSeq for n := len(dirs) - 1; n >= 0; n-- { walFile := filepath.Join(logPath, dirs[n].Name()) replay.fileNames = append(replay.fileNames, walFile) } }" := by rfl
 
